@@ -7,7 +7,7 @@ from hypothesis import strategies as st
 from .. import gen
 from ..common import TOL, Crash, graph_from_json, guarded, inconclusive, invalid_config, ok, violation
 from ..inexact import Instance
-from ..models import CYC_CLASSES, run_model, solver_artifact, timed_out
+from ..models import CYC_CLASSES, ConstraintSpec, run_model, solver_artifact, timed_out
 from ..oracle import bf
 from ..oracle.routes import check_route
 from ..oracle.width import dilworth
@@ -96,8 +96,9 @@ def run_case(case, tier="quick"):
         ranges, factors = kw.get("path_length_ranges", []), kw.get("path_length_factors", [])
         if factors and (cyc or wt != "int" or len(ranges) != len(factors)):
             return invalid_config("length factors only for DAG + int")
+        spec = ConstraintSpec(case, G)
         constraints = kw.get("subset_constraints" if cyc else "subpath_constraints", [])
-        coverage = kw.get("subset_constraints_coverage" if cyc else "subpath_constraints_coverage", 1.0)
+        coverage = spec.coverage
         from ..oracle import walkauto as wa
         from ..oracle.routes import augmented
 
@@ -146,7 +147,7 @@ def run_case(case, tier="quick"):
             keep = [i for i, m in enumerate(mults) if sum(m.values()) > 0 and (not factors or inst.route_len_factor(m, ranges, factors) is not None)]
             mults = [mults[i] for i in keep]
             paths = [paths[i] for i in keep]
-            pred = constraint_pred(inst, mults, constraints, coverage, cyc)
+            pred = constraint_pred(inst, mults, constraints, coverage, cyc, spec)
             best, bset, tried, complete = bf.best_over_route_sets("mpe", mults, keff, inst.f_req, inst.scale, wt, pred, factors_of=factors_of_family(mults))
             if complete:
                 ref, exact = best, True
@@ -156,7 +157,7 @@ def run_case(case, tier="quick"):
         vecs, _complete_fam = inst.walk_family(B, limit=40)
         vecs = [v for v in vecs if sum(v.values()) > 0]
         if len(vecs) ** min(keff, 2) <= 1600 or keff == 1:
-            pred = constraint_pred(inst, vecs, constraints, coverage, cyc)
+            pred = constraint_pred(inst, vecs, constraints, coverage, cyc, spec)
             best, bset, tried, complete = bf.best_over_route_sets("mpe", vecs, min(keff, 2 if len(vecs) > 12 else keff), inst.f_req, inst.scale, wt, pred, max_sets=1600)
             ref = best
             ref_desc = [dict(vecs[i]) for i in bset] if bset is not None else None
@@ -165,7 +166,7 @@ def run_case(case, tier="quick"):
         try:
             pm = [inst.mult_of(p) for p, _w in planted]
             ok_pl = all(check_route(G, list(p), inst.starts, inst.ends, simple=not cyc) is None for p, _w in planted)
-            pred = constraint_pred(inst, pm, constraints, coverage, cyc)
+            pred = constraint_pred(inst, pm, constraints, coverage, cyc, spec)
             if ok_pl and (pred is None or pred(tuple(range(len(pm))))):
                 st_, obj, _ = bf.fixed_routes("mpe", pm, inst.f_req, inst.scale, wt)
                 if st_ == "optimal" and (ref is None or obj < ref - 1e-9):
